@@ -2,6 +2,7 @@ import Lean.Data.Json
 import LogicaModel.Escape
 import LogicaModel.TypeAlg
 import LogicaModel.OrderLimit
+import LogicaModel.Concertina
 /-! Request handlers of the line-protocol driver (executable definitions of the models only). -/
 open Lean
 
@@ -133,11 +134,49 @@ def handleOrderLimit (op : String) (j : Json) : Except String Json := do
     return Json.mkObj [("rows", toJson out)]
   | _ => throw ("unknown op " ++ op)
 
+/-! ### Concertina -/
+def concertinaConfig (j : Json) : Except String Concertina.Config := do
+  let acts ← j.getObjValAs? (Array Json) "actions"
+  let its ← j.getObjValAs? (Array Json) "iterations"
+  let actions ← acts.toList.mapM fun a => do
+    let n ← a.getObjValAs? String "name"
+    let r ← a.getObjValAs? (Array String) "requires"
+    pure ({ name := n, requires := r.toList } : Concertina.Action)
+  let iterations ← its.toList.mapM fun a => do
+    let n ← a.getObjValAs? String "name"
+    let ps ← a.getObjValAs? (Array String) "predicates"
+    let reps ← a.getObjValAs? Nat "repetitions"
+    let sig := (a.getObjValAs? String "stop_signal").toOption.getD ""
+    let dm := (a.getObjValAs? Bool "diamond").toOption.getD false
+    pure ({ name := n, predicates := ps.toList, repetitions := reps, stopSignal := sig, diamond := dm } : Concertina.Iteration)
+  pure { actions := actions, iterations := iterations }
+
+def handleConcertina (op : String) (j : Json) : Except String Json := do
+  match op with
+  | "concertina" =>
+    let c ← concertinaConfig j
+    let raiseArr := (j.getObjValAs? (Array Json) "raise").toOption.getD #[]
+    let raises ← raiseArr.toList.mapM fun p => do
+      let s ← (← p.getArrVal? 0).getStr?
+      let t ← (← p.getArrVal? 1).getNat?
+      pure (s, t)
+    let raised : String → Nat → Bool := fun s t => raises.any (fun p => p.1 == s && p.2 ≤ t)
+    match Concertina.run c raised with
+    | .ok trace stopped => return Json.mkObj [("trace", toJson trace), ("stopped", toJson stopped)]
+    | .couldNotSchedule => return Json.mkObj [("error", "could-not-schedule")]
+    | .badIteration => return Json.mkObj [("error", "bad-iteration")]
+    | .outOfFuel => return Json.mkObj [("error", "out-of-fuel")]
+  | "concertina_requires" =>
+    let c ← concertinaConfig j
+    return Json.mkObj [("requires", Json.mkObj (c.names.map fun a => (a, toJson (Concertina.sortStrings (c.requiresOf a)))))]
+  | _ => throw ("unknown op " ++ op)
+
 def handle (j : Json) : Except String Json := do
   let op ← str j "op"
   if ["strlit", "lex", "useflags", "buildflags"].contains op then handleEscape op j
   else if ["meet", "meet3"].contains op then handleTypeAlg op j
   else if ["clauses", "eval_ordered"].contains op then handleOrderLimit op j
+  else if ["concertina", "concertina_requires"].contains op then handleConcertina op j
   else throw ("unknown op " ++ op)
 
 end Logica.Ops
